@@ -94,3 +94,25 @@ pub fn c99_fw_n3_w() {
 pub fn c99_fw_n2() {
     crate::c08_floyd_warshall::dense::<2>(-4, 8);
 }
+
+// @verif prop=DEV tier=dev fl=f2 feat=map4 role=probe t=900 mem=14 rec=::connect:4
+#[cfg_attr(kani, kani::proof)]
+#[cfg_attr(kani, kani::unwind(5))]
+pub fn c99_tarjan_fixed() {
+    use crate::oracle::G;
+    use graaf::Tarjan;
+
+    cx::set_vcap(4);
+
+    let mut g = G::<3>::empty();
+
+    g.a[0][1] = true;
+    g.a[1][0] = true;
+    g.a[2][0] = nd::bool();
+
+    let mut t = Tarjan::new(&g);
+    let comps = t.components();
+
+    assert!(comps.len() == 2, "two components");
+    core::mem::forget(t);
+}
